@@ -285,6 +285,12 @@ func bestPracticesCheck(token jwt.Token) error {
 		}
 	}
 
+	// An exp of 0 is "not set" to the JWT library (the expiration is then not validated at all), which would make the
+	// token valid forever: require a real expiration time
+	if token.Expiration().Unix() <= 0 {
+		return errors.New("token exp must be a positive timestamp")
+	}
+
 	// Ensure JTI is a UUID
 	jti := tokenJTI(token)
 	if _, err := uuid.Parse(jti); err != nil {
